@@ -51,11 +51,28 @@ int nanosleep (const struct timespec *req, struct timespec *rem) {
     return real (req, rem);
 }
 
+/* crefuse=a,b,..: the k-th connection of the op is refused a/b/.. times (errno cerr=, default ECONNREFUSED) before it is let
+ * through - a full listen queue.  The refusals are not connections: n= and tr= count what reached the acceptor. */
+static int g_cref[64], g_ncref = 0, g_cerr = ECONNREFUSED, g_crefused = 0, g_conn_ok = 0;
 int connect (int fd, const struct sockaddr *addr, socklen_t len) {
     static int (*real) (int, const struct sockaddr *, socklen_t) = NULL;
+    int rc;
     if (!real) real = dlsym (RTLD_NEXT, "connect");
-    if (g_in_op && pthread_equal (pthread_self (), g_main_thread)) g_connects++;
-    return real (fd, addr, len);
+    if (!(g_in_op && pthread_equal (pthread_self (), g_main_thread))) return real (fd, addr, len);
+    if (g_conn_ok < g_ncref && g_cref[g_conn_ok] > 0) { g_cref[g_conn_ok]--; g_crefused++; errno = g_cerr; return -1; }
+    g_connects++;
+    rc = real (fd, addr, len);
+    if (rc == 0) g_conn_ok++;
+    return rc;
+}
+static void parse_crefuse (char **a, int na) {
+    char *v, *dup, *tok, *save = NULL;
+    g_ncref = 0; g_cerr = ECONNREFUSED; g_crefused = 0; g_conn_ok = 0;
+    if ((v = kv (a, na, "cerr"))) g_cerr = atoi (v);
+    if (!(v = kv (a, na, "crefuse"))) return;
+    dup = strdup (v);
+    for (tok = strtok_r (dup, ",", &save); tok && g_ncref < 64; tok = strtok_r (NULL, ",", &save)) g_cref[g_ncref++] = atoi (tok);
+    free (dup);
 }
 
 /* ---- schedule and trace -------------------------------------------------------------------- */
@@ -220,6 +237,7 @@ static void print_trace (void) {
     printf (" sl=");
     if (g_nsleeps == 0) printf ("-");
     for (i = 0; i < g_nsleeps; i++) printf ("%s%ld", i ? "," : "", g_sleeps[i]);
+    if (g_ncref) printf (" cf=%d", g_crefused);
 }
 
 /* <hex>, -, or rep:XX:N */
@@ -252,6 +270,7 @@ static void do_enc (char **w, int n) {
         char *r = malloc (rl + 1); memcpy (r, realm, rl); r[rl] = 0;
         munge_ctx_set (ctx, MUNGE_OPT_REALM, r); free (r);
     }
+    parse_crefuse (a, na);
     begin_op ();
     e = munge_encode (&cred, ctx, data, (int) dlen);
     end_op ();
@@ -274,6 +293,7 @@ static void do_dec (char **w, int n) {
     cred = malloc (cl + 1); memcpy (cred, cb, cl); cred[cl] = 0; free (cb);
     ctx = munge_ctx_create ();
     munge_ctx_set (ctx, MUNGE_OPT_SOCKET, g_sock);
+    parse_crefuse (a, na);
     begin_op ();
     e = munge_decode (cred, ctx, &buf, &len, &uid, &gid);
     end_op ();
